@@ -229,6 +229,10 @@ func merge(c *core.Ctx, r *histResult, deciding bool) {
 // classifyDeath maps the stack of a dead child to a violation class when the failing frames are in the anchored code.
 func classifyDeath(out string) (string, bool) {
 	switch {
+	case strings.Contains(out, "concurrent map") && (strings.Contains(out, "getReferenceFiles") || strings.Contains(out, "removeReferenceFile") || strings.Contains(out, "addReferenceFile") || strings.Contains(out, "getAllReferenceFiles")):
+		// two rollup jobs (two source families of one store) work on the same target family: Version.Clone shares the
+		// inner reference-file map between versions, one job applies its edit log to the clone while the other reads
+		return "C04/rollup/concurrent-jobs-into-one-target/version-clone-shares-reference-map/process-dies", true
 	case strings.Contains(out, "kv.(*family).rollup") || strings.Contains(out, "doRollupWork"):
 		return "C04/rollup/process-dies-in-rollup-job", true
 	case strings.Contains(out, "kv.(*compactJob)") && strings.Contains(out, "metricsdata."):
